@@ -97,6 +97,21 @@ def components(rng, d, kind):
         L[i], M[i + 1] = pair(dims[i], dims[i + 1])
         if r == 1 and rng.random() < 0.5:
             L[i], M[i + 1] = L[i][:, :, 0], M[i + 1][0]
+    if len(set(dims)) == 1 and d > 1 and rng.random() < 0.5:
+        # site-dependent lists that are nearly homogeneous: one set of components on every site, rescaled by 1 + O(1e-7..1e-5) per site
+        # (weak disorder) or on a single site (weak impurity), or exactly equal copies / one object on all sites
+        m = dims[0]
+        S0 = site(m)
+        L0, M0 = pair(m, m)
+        u = int(rng.integers(0, 3))
+        q = float(10 ** rng.uniform(-7, -5.2))
+        f = 1.0 + q * rng.standard_normal(d) if u == 0 else np.ones(d)
+        if u == 1:
+            f[int(rng.integers(0, d))] += q * (1 if rng.random() < 0.5 else -1)
+        share = (u == 2 and rng.random() < 0.5)
+        S = [S0 if share else S0 * f[i] for i in range(d)]
+        for i in range(d - 1):
+            L[i], M[i + 1] = (L0 if share else L0 * f[i]), (M0 if share else M0.copy())
     L[d - 1] = np.zeros((dims[-1], dims[-1], 1))
     M[0] = np.zeros((1, dims[0], dims[0]))
     I = [np.eye(m) for m in dims]
